@@ -547,6 +547,76 @@ pub fn run(ctx: &Ctx) -> Report {
         }
     });
     rep.merge(r);
+    // ---- a transport that is slow for a moment: rows of a few KB under short writes, and ONE transient
+    //      error (WouldBlock / TimedOut / Interrupted) on one write or flush, often in the middle of a
+    //      packet that the transport has already taken a part of. The server may give up (that is
+    //      C19's clause); if it carries on and run_on returns Ok, the client must have received exactly
+    //      the byte stream of the undisturbed twin - no packet begun twice, none cut short
+    let n = if ctx.miri { 2 } else { ctx.n(800, 20_000) };
+    let r = par_cases(ctx, "C04", "slow-transport", n, |rng, i, rep| {
+        let ncols = rng.range(1, 3) as usize;
+        let cols: Vec<_> = (0..ncols).map(|k| simple_col(&format!("c{}", k), ColumnType::MYSQL_TYPE_BLOB)).collect();
+        let nrows = rng.range(1, 6);
+        let mut ops = vec![QOp::Start(0)];
+        for r in 0..nrows {
+            let cells: Vec<Cell> = (0..ncols)
+                .map(|k| {
+                    let mut b = Vec::new();
+                    let l = *rng.pick(&[0usize, 10, 300, 1500, 3000, 9000]);
+                    stream_fill(&mut b, rng.next(), r * 7 + k as u64, l, false);
+                    Cell::val(V::Bytes(b))
+                })
+                .collect();
+            ops.push(QOp::Row(cells, RowForm::Owned));
+        }
+        ops.push(QOp::Finish);
+        let prog = QProg { colsets: vec![cols.clone()], ops, on_err: OnErr::Drop };
+        let bin = i % 2 == 1;
+        let mut cmds = vec![Cmd::prepare(b"p")];
+        let mut scripts = vec![Script::PrepOk { id: 1, params: vec![], cols: cols.clone() }];
+        cmds.push(if bin { Cmd::execute(1, &[], false) } else { Cmd::query(b"q") });
+        scripts.push(Script::Q(prog));
+        cmds.push(Cmd::ping());
+        let mut case = Case::new(cmds, scripts);
+        case.write_limit = *rng.pick(&[100usize, 700, 1000, 4096, 65_536]);
+        let dry = run_case(&case);
+        if dry.outcome != Outcome::Ok {
+            rep.inconclusive.push(format!("slow-transport: the undisturbed run ended with {}", dry.outcome.describe()));
+            return;
+        }
+        // the fault lands on a write or flush of the reply (operations of the second half of the run)
+        let nops = dry.world.nops.max(2);
+        case.fault.err_at = Some(nops / 3 + rng.below(nops - nops / 3));
+        case.fault.persistent = false;
+        case.fault.err_kind = 100 + (i / 2 % 3) as u8;
+        let obs = run_case(&case);
+        rep.evaluations += 1;
+        if harness_panic(&obs, rep) {
+            return;
+        }
+        let kindname = ["Interrupted", "WouldBlock", "TimedOut"][(i / 2 % 3) as usize];
+        rep.counters.class(format!("slow transport: {} once, write limit {}, {}", kindname, case.write_limit, if bin { "binary" } else { "text" }));
+        let d = || J::obj().set("rows", nrows).set("columns", ncols).set("protocol", if bin { "binary" } else { "text" }).set("write_limit", case.write_limit as i64).set("transient_error", kindname).set("at_transport_operation", case.fault.err_at.unwrap_or(0)).set("operation_kind", format!("{:?}", obs.world.fault_op)).set("outcome", obs.outcome.describe());
+        if i < 2 {
+            rep.sample(d());
+        }
+        if let Outcome::Panic { file, line, msg } = &obs.outcome {
+            rep.violations.push(viol("C04", format!("C04 {}", panic_signature(file, *line, msg)), format!("panic while a reply met a slow transport: {}", obs.outcome.describe()), d()));
+            return;
+        }
+        if obs.outcome != Outcome::Ok {
+            rep.counters.inc("slow_transport_ended_the_connection");
+            return;
+        }
+        let (a, b) = (dry.output(), obs.output());
+        if a != b {
+            let at = first_diff(&a, &b).unwrap_or(0);
+            rep.violations.push(viol("C04", "C04 stream-differs-after-transient-error".into(), format!("run_on returned Ok after one {} on a {:?}, but the client received {} bytes where the undisturbed run sends {}; first difference at offset {} (undisturbed {} / disturbed {})", kindname, obs.world.fault_op, b.len(), a.len(), at, hex(&a[at.min(a.len())..(at + 12).min(a.len())]), hex(&b[at.min(b.len())..(at + 12).min(b.len())])), d()));
+            return;
+        }
+        rep.counters.inc("slow_transport_survived_streams_compared");
+    });
+    rep.merge(r);
     // ---- backends that go on after a refused writer call, abandon a row, report an error, or let the
     //      writer go out of scope in mid-row (props/recover.rs): whenever the calls report success, what
     //      the client reassembles are the messages those calls denoted - no bytes of an abandoned row
